@@ -58,6 +58,7 @@ func (l *elog) add(e event) {
 var targetBehaviours = []string{"confirm", "deny", "addgrant-fails", "setup-fails", "raw-confirm", "raw-deny", "raw-close", "raw-garbage"}
 
 func genC06(r *vh.Runner) {
+	genC06FullStack(r)
 	// exhaustive short decision sequences over {approve, deny} x 4 real-target behaviours x {same, other host}
 	base := []string{"confirm", "deny", "addgrant-fails", "setup-fails"}
 	var alpha []step
